@@ -102,23 +102,24 @@ def finding_sig(detail):
 
 def _parse_dim(text):
     import re
-    from .dim import Dim
+    from .dim import Dim, D
     ns = {n: Dim.sym(n) for n in set(re.findall(r"[A-Za-z_][A-Za-z_0-9]*", text))}
-    return eval(text, {"__builtins__": {}}, ns)
+    return D(eval(text, {"__builtins__": {}}, ns))
 
 
-def _feasible(facts):
-    """Is there an assignment of positive integers to the size symbols that satisfies every fact?  (brute force over 1..4;
-    anything that cannot be evaluated counts as feasible: an unexplored side of a branch would be a missed violation)"""
+def _models(facts):
+    """assignments of 1..4 to the size symbols that satisfy every fact, as (symbols, list of dicts); None when the facts cannot be
+    evaluated (too many symbols, unparsable size)"""
     import itertools
     from .dim import D
     try:
         cons = [(k[0], _parse_dim(k[1]), _parse_dim(k[2]), v) for k, v in facts.items() if k[0] in ("lt", "le", "eq")]
     except Exception:
-        return True
+        return None
     syms = sorted(set().union(*[a.symbols() | b.symbols() for _, a, b, _ in cons])) if cons else []
     if len(syms) > 6:
-        return True
+        return None
+    out = []
     for vals in itertools.product((1, 2, 3, 4), repeat=len(syms)):
         m = {sy: D(v) for sy, v in zip(syms, vals)}
         ok = True
@@ -126,14 +127,34 @@ def _feasible(facts):
             try:
                 x, y = a.subs(m).value(), b.subs(m).value()
             except Exception:
-                return True
+                return None
             holds = (x < y) if kind == "lt" else (x <= y) if kind == "le" else (x == y)
             if holds != bool(v):
                 ok = False
                 break
         if ok:
-            return True
-    return False
+            out.append(dict(zip(syms, vals)))
+    return syms, out
+
+
+def _feasible(facts):
+    """Is there an assignment of positive integers to the size symbols that satisfies every fact?  (brute force over 1..4;
+    anything that cannot be evaluated counts as feasible: an unexplored side of a branch would be a missed violation)"""
+    r = _models(facts)
+    return True if r is None else bool(r[1])
+
+
+def _pinned(facts, key):
+    """Does the assumed outcome pin a size symbol of the comparison to ONE value (`R > 1` false: R = 1)?  Such a side of the branch is
+    code for one particular size; run on a generic symbol it would show shape differences that do not exist at that size."""
+    r = _models(facts)
+    if r is None or not r[1]:
+        return False
+    try:
+        ks = _parse_dim(key[1]).symbols() | _parse_dim(key[2]).symbols()
+    except Exception:
+        return False
+    return any(len({m[sy] for m in r[1]}) == 1 for sy in ks if sy in r[0])
 
 
 def _implied(key, val):
@@ -210,9 +231,17 @@ def run_one(ob, _extra=None, _le=(), _depth=0):
                 facts.update(imp)
                 if not _feasible(facts):
                     continue
+                pinned = _pinned(facts, e.key)
                 ex = dict(_extra or {})
                 ex.update(imp)
                 sub = run_one(ob, ex, tuple(_le) + (le,), _depth + 1)
+                if pinned and sub["verdict"] in (REFUTED, ERROR):
+                    # the assumed outcome pins a size to ONE value (`R > 1` false: R = 1): that side is code for one particular size; a proof
+                    # on the generic symbol covers it, a difference may be an artefact of running special-size code on a generic symbol
+                    sub["verdict"] = UNDECIDED
+                    sub["detail"] = (f"{e}: the outcome `{e.key[1]} {'<' if e.key[0] == 'lt' else '<='} {e.key[2]}` = {val} is a single size and the generic-size run of "
+                                     "that side differs from the reference (special-size code is decided only in the special-size contexts)")
+                    sub.pop("sig", None)
                 if sub["verdict"] == REFUTED and _re.search(r"\b(Inv|GInv|LnDet|Chol)\w*#\d+", json.dumps(sub.get("detail"), default=str)):
                     # the side of the branch that today's contexts never took differs from the reference by terms that contain
                     # inverses / log-determinants of composite expressions: a differently factored expression (Woodbury-type
